@@ -476,6 +476,12 @@ def _emission_protocol(r: RuleResult, f: FuncInfo, label: str):
             "the selected conclusions are not cleared after an emission: they are applied to later results as well")
 
 
+def _hv_truth(prog):
+    from .hvtruth import hv_truth
+
+    return hv_truth(prog)
+
+
 def _shared_default(prog):
     from .shareddefault import shared_default
 
@@ -491,4 +497,6 @@ def run(prog: Program, tier: str) -> List[RuleResult]:
             # ... and the reset has to reach the selectors of branches written after an evaluation
             carry_reset_reach(prog),
             # the selectors' memories are separate objects (true / false results, one selector and the next)
-            _shared_default(prog)]
+            _shared_default(prog),
+            # 'constructed from the values of the binding': an argument whose value is falsy is an argument
+            _hv_truth(prog)]
